@@ -72,6 +72,14 @@ impl<NumericTypes: EvalexprNumericTypes> Function<NumericTypes> {
     }
 
     pub(crate) fn call(&self, argument: &Value<NumericTypes>) -> EvalexprResultValue<NumericTypes> {
+        #[cfg(feature = "verif-hooks")]
+        {
+            crate::verif::point(crate::verif::Site::FnBefore);
+            let result = (self.function)(argument);
+            crate::verif::point(crate::verif::Site::FnAfter);
+            return result;
+        }
+        #[cfg(not(feature = "verif-hooks"))]
         (self.function)(argument)
     }
 }
